@@ -103,6 +103,28 @@ def rule_inside(chk, cvar):
                 bad.append("`yield from` resumes the generator outside its context")
             if isinstance(n, ast.For) and isinstance(n.iter, ast.Name) and n.iter.id == gv:
                 bad.append("a for loop resumes the generator outside its context")
+    # bound methods of the generator handed around as values: allowed only as arguments of <cvar>.run(...)
+    method_values_ok = 0
+    for f in [w] + [g for g in ctx.p.mod("_generators").funcs.values() if g.qualname.startswith(w.qualname + ".")]:
+        parents = {}
+        for n in iter_own_nodes(f.node):
+            for ch in ast.iter_child_nodes(n):
+                parents[id(ch)] = n
+        for n in iter_own_nodes(f.node):
+            if isinstance(n, ast.Attribute) and isinstance(n.value, ast.Name) and n.value.id == gv and n.attr in RES and isinstance(n.ctx, ast.Load):
+                par = parents.get(id(n))
+                if isinstance(par, ast.Call) and par.func is n:
+                    continue  # a direct call, handled above
+                in_run = isinstance(par, ast.Call) and isinstance(par.func, ast.Attribute) and par.func.attr == "run" and isinstance(par.func.value, ast.Name) \
+                    and par.func.value.id == cvar and n in par.args
+                if in_run:
+                    method_values_ok += 1
+                else:
+                    bad.append("%s.%s is handed to %s, i.e. the generator is resumed outside %s.run(...): in the driver's context" % (gv, n.attr, unparse(par)[:40] if par is not None else "?", cvar))
+    if not resumers and (method_values_ok or bad):
+        chk.req(not bad, "C15.inside", "wrapper:generator-resumed-only-inside-its-own-context", chk.where(w),
+                good="%s.send/throw are passed only to %s.run(...)" % (gv, cvar), fail="; ".join(bad), sites=method_values_ok + len(bad))
+        return gv, []
     chk.need(resumers, "wrapper: no resumption of the wrapped generator found")
     for f in resumers:
         if f is w:
@@ -294,4 +316,6 @@ def run(chk):
         gv, resumers = rule_inside(chk, cvar)
         if resumers and resumers[0] is not _wrapper(chk)[1]:
             rule_transparent(chk, cvar, gv, resumers)
+        elif not resumers and not any(o.status == "VIOLATED" for o in chk.obs):
+            raise AnalysisError("wrapper: resumption through method values -- value transparency rules not modelled for this shape")
     rule_meta(chk)
